@@ -769,6 +769,35 @@ theorem plane_geometry_matches_model [Zero K] (p : PlaneM K R) :
     · simp [Gen.planeSliceKind]
     · simp [Gen.planeLoopMaskLayer]
 
+/-- **the `res.size > 0` guard keeps exactly what the model keeps** (about the *generated* `Gen.planeLoopKeep`, read off
+`if res.size > 0:` in `Plane.multiply` on every run): the model writes an empty product as `none` and `planeMultiply`
+drops those with `filterMap`; every product it keeps (`f.mul q = some r`, both operands of positive shape) has
+`res.size > 0` in the sense of the source's guard — also a one-element product — and an empty product (`size = 0`) is
+not kept. A guard `res.size > 1` or `res.size >= 0` breaks this proof. -/
+theorem loop_keep_matches_filterMap [Mul K] (f q r : Fld K) (hf : 0 < f.arr.s0 ∧ 0 < f.arr.s1) (hq : 0 < q.arr.s0 ∧ 0 < q.arr.s1)
+    (h : f.mul q = some r) : Gen.planeLoopKeep r.size = true ∧ Gen.planeLoopKeep 0 = false := by
+  obtain ⟨h0, h1⟩ := Fld.mul_pos_shape f q r hf hq h
+  have a0 : 0 < r.arr.s0.toNat := by omega
+  have a1 : 0 < r.arr.s1.toNat := by omega
+  have hp : 0 < r.arr.s0.toNat * r.arr.s1.toNat := Nat.mul_pos a0 a1
+  refine ⟨?_, by decide⟩
+  unfold Gen.planeLoopKeep Fld.size
+  simp only [gt_iff_lt, decide_eq_true_eq]
+  omega
+
+/-- the same along the whole loop: every field `planeMultiply` returns passed the source's guard -/
+theorem plane_multiply_keeps_nonempty [Zero K] [Mul K] (ph : R → K) (p : PlaneM K R) (data : List (Fld K))
+    (hd : ∀ f ∈ data, 0 < f.arr.s0 ∧ 0 < f.arr.s1) (hp : ∀ q ∈ planePhasors ph p, 0 < q.arr.s0 ∧ 0 < q.arr.s1) :
+    ∀ r ∈ planeMultiply ph p data, Gen.planeLoopKeep r.size = true := by
+  intro r hr
+  unfold planeMultiply at hr
+  obtain ⟨f, hfm, hr⟩ := List.mem_flatMap.mp hr
+  obtain ⟨q, hqm, hr⟩ := List.mem_filterMap.mp hr
+  exact (loop_keep_matches_filterMap f q r (hd f hfm) (hp q hqm) hr).1
+
+/-- non-vacuity: a one-element product passes the guard -/
+example : Gen.planeLoopKeep 1 = true := by decide
+
 end loop
 
 end Lentil.C07
